@@ -1,7 +1,12 @@
 package scen
 
 import (
+	"context"
 	"fmt"
+	"io"
+	"net/http"
+	"path"
+	"strings"
 
 	"verifsim/world"
 
@@ -70,4 +75,81 @@ func namesScen(c *Ctx) {
 		}
 	}
 	s.Note("names checked %d", n)
+	azblobOnTransport(c)
+}
+
+// azTransport stands in for the Azure blob service: it records the blob name
+// of every request and answers 404 (reads) / 201 (uploads).
+type azTransport struct{ paths []string }
+
+func (t *azTransport) Do(req *http.Request) (*http.Response, error) {
+	t.paths = append(t.paths, req.Method+" "+req.URL.Path)
+	if req.Body != nil {
+		_, _ = io.Copy(io.Discard, req.Body)
+		_ = req.Body.Close()
+	}
+	code := 404
+	if req.Method == http.MethodPut {
+		code = 201
+	}
+	return &http.Response{StatusCode: code, Status: fmt.Sprint(code), Header: http.Header{"X-Ms-Error-Code": {"BlobNotFound"}}, Body: io.NopCloser(strings.NewReader("")), Request: req}, nil
+}
+
+type nullLogger struct{}
+
+func (nullLogger) Printf(string, ...any) {}
+
+// azblobOnTransport: the real azblobproxy (built by its New) on an in-memory
+// transport. The blob name 2.x asks the service for is the configured prefix
+// verbatim, a slash, and the object key (which itself starts with the cleaned
+// prefix); without a prefix it is the object key. That name must be what Get,
+// Contains and UploadFile use, for prefixes in and not in path.Clean form
+// (added after seeded change C20d; the SDK's HTTP pipeline runs, the service
+// is the stub above).
+func azblobOnTransport(c *Ctx) {
+	r, s := c.R, c.S
+	prefixes := []string{"", "p", "a/b", "team/", "foo//bar", "x/./y", "cas.v2"}
+	kinds := []cache.EntryKind{cache.AC, cache.CAS, cache.RAW}
+	for i := 0; i < 6; i++ {
+		prefix := prefixes[r.Intn(len(prefixes))]
+		kind := kinds[r.Intn(3)]
+		v2 := r.Chance(1, 2)
+		mode := map[bool]string{true: "zstd", false: "uncompressed"}[v2]
+		hash := world.HashOf([]byte(fmt.Sprintf("az-%d", r.Intn(12))))
+		ks := kind.String()
+		if v2 && kind == cache.CAS {
+			ks = "cas.v2"
+		}
+		want := ks + "/" + hash[:2] + "/" + hash
+		if prefix != "" {
+			want = prefix + "/" + path.Clean(prefix) + "/" + want
+		}
+		t := &azTransport{}
+		p := azblobproxy.VerifNewOnTransport(prefix, mode, t, nullLogger{})
+		op := r.Intn(3)
+		switch op {
+		case 0:
+			p.Contains(context.Background(), kind, hash, -1)
+		case 1:
+			if rc, _, err := p.Get(context.Background(), kind, hash, -1); err == nil && rc != nil {
+				_ = rc.Close()
+			}
+		default:
+			azblobproxy.VerifUpload(p, kind, hash, []byte("payload"))
+		}
+		c.Res.Ops++
+		opName := []string{"Contains", "Get", "UploadFile"}[op]
+		if len(t.paths) == 0 {
+			s.Violate("C20.names", "azblob/"+opName, "no request reached the blob service")
+			continue
+		}
+		got := t.paths[0]
+		if sp := strings.IndexByte(got, ' '); sp >= 0 {
+			got = got[sp+1:]
+		}
+		if got != "/cont/"+want {
+			s.Violate("C20.names", "azblob/"+opName, "blob requested for (kind=%s, prefix=%q, mode=%s) is %q, release 2.x uses %q", kind, prefix, mode, got, "/cont/"+want)
+		}
+		s.Note("az %s %s %q -> %s", opName, kind, prefix, got)
+	}
 }
